@@ -123,6 +123,15 @@ def inverse_tables(repo: Repo, R):
     s = bool(pat.find("path = pmod.name.split('.')", fim.node)) and bool(pat.find("module._importpath = path[:-1]", fim.node)) and bool(pat.find("module.name = path[-1]", fim.node))
     fqp = repo.func(F_QUALNAME, "qualpath")
     back = bool(pat.find("mod._importpath + [mod.name]", fqp.node))
+    # "imported" means the import path was set, even to the empty path (a module defined at top level / in a notebook)
+    imp_test = None
+    for n in au.walk_no_nested(fqp.node):
+        if isinstance(n, ast.If) and pat.find("mod._importpath + [mod.name]", ast.Module(n.body, [])):
+            imp_test = ast.unparse(n.test)
+    exact = imp_test in ("getattr(mod, '_importpath', None) is not None", "mod._importpath is not None")
+    R.check(exact, rule, f"{F_QUALNAME}::qualpath::imported-test", fqp.site,
+            f"a module counts as imported when its import path `is not None` (test: `{imp_test}`); an empty path is a valid import path",
+            why="a module imported with an empty path (defined via exec / a notebook / python -c) is re-exported under the importer's own Python module path: names change in the round trip")
     R.check(j and s and back, rule, f"{F_QUALNAME}::qualname<->import_module", fq.site, f"module names: exported '.'.join(path) ({j}); imported split('.') into import path + name ({s}); re-exported from the import path ({back})", why="imported modules are re-exported under another qualified name")
     # slice / concat mirrors are the C01.2 obligations (shared code)
     c01_rule = "C11.1-inverse-tables"
@@ -175,6 +184,15 @@ def variant_coverage(repo: Repo, R):
         R.check(bool(produced) and not missing, rule, f"oneof::{m}.{grp}", f"{F_EXPORT} / {F_IMPORT}",
                 f"{m}.{grp}: exporter can produce {sorted(produced)}; importer dispatches on {sorted(handled)}" + (f"; UNHANDLED {missing}" if missing else ""),
                 why="a variant the exporter produces makes from_proto raise, or is imported as the default")
+    # a Concat comes back as a Concat, whatever its number of parts
+    fic = repo.func(F_IMPORT, "import_concat")
+    rets = [n for n in au.walk_no_nested(fic.node) if isinstance(n, ast.Return)]
+    ok = len(rets) == 1 and ast.unparse(rets[0].value) == "Concat(*parts)"
+    R.check(ok, rule, key_of(fic, "always-concat"), fic.site, f"import_concat has one exit, returning Concat(*parts): {ok} (returns: {[ast.unparse(r.value) for r in rets]})",
+            why="a one-part concatenation is imported as a bare signal: re-exporting emits `sig` where the package had `concat`")
+    fct = repo.func(F_IMPORT, "import_connection_target")
+    ok = any(isinstance(n, ast.If) and ast.unparse(n.test) == "stype == 'concat'" and ast.unparse(n.body[-1]) == "return import_concat(pconn.concat, module)" for n in au.walk_no_nested(fct.node))
+    R.check(ok, rule, key_of(fct, "concat-arm"), fct.site, f"a concat target is imported by import_concat: {ok}", why="concat targets are imported as something else")
     # importer arms build the mirror value
     fpv = repo.func(F_IMPORT, "import_parameter_value")
     arms = {}
